@@ -17,7 +17,10 @@ from .. import tlc, mbt, tlaval
 from ..common import Verdict, use_repo, SEED, BUILD, ensure_dir
 
 ALL = ['list', 'dict', 'tuple', 'set', 'P', 'PA', 'S', 'SD', 'GS', 'GT', 'GV', 'GC', 'GL', 'NA', 'NT', 'R2', 'R3', 'RL', 'RD', 'CR', 'ML', 'MD',
-       'MS', 'OD', 'MO', 'XS']
+       'MS', 'OD', 'MO', 'XS', 'E0', 'DS', 'SB', 'E0T', 'PT', 'ST', 'DST']
+# class layouts under the default reduction: {instance dictionary or not} x {slots or not} x {__setstate__ or not}
+LAYOUTS = ['E0', 'P', 'S', 'SD', 'DS', 'SB', 'E0T', 'PT', 'ST', 'DST']
+OLD = ALL[:26]          # the family before the layout product was added (the big configurations keep to it)
 ALLLEAVES = ['i', 'i0', 's', 's0', 'z', 'c', 'n', 'f', 'm', 'e', 'b']
 DEVIATIONS = ['deepreg', 'slotsnone', 'falsystate', 'nonestate', 'emptytuple', 'latefill', 'scalarsub', 'stateorder']
 SCHEMES = ['ord', 'ext', 'dun', 'prv', 'app', 'upd']
@@ -40,17 +43,22 @@ CONFIGS = {
     # where the protocol methods live: own class vs inherited from a base, every shape, alone and above / below a list
     'homes':   dict(MaxObjs=2, Shapes=['GS', 'GT', 'GV', 'GC', 'GL', 'PA', 'S', 'SD', 'NA', 'R3', 'RL', 'RD', 'ML', 'MD', 'list'],
                     Leaves=['i'], KidsRoot=2, KidsRest=1, Homes=['inh']),
-    'homes1':  dict(MaxObjs=1, Shapes=ALL, Leaves=['i', 'i0'], KidsRoot=2, KidsRest=0, Homes=['inh'], Schemes=['ord', 'dun']),
+    'homes1':  dict(MaxObjs=1, Shapes=OLD, Leaves=['i', 'i0'], KidsRoot=2, KidsRest=0, Homes=['inh'], Schemes=['ord', 'dun']),
+    # class layouts: every layout x own / inherited x every split of <= 3 values over dictionary part and slot part
+    # (each part empty or not) x leaf / self reference; and every layout above and below a list (sharing, back edge)
+    'layouts': dict(MaxObjs=1, Shapes=LAYOUTS, Leaves=['i', 'z'], KidsRoot=2, KidsRest=0, Homes=['own', 'inh'], Schemes=['ord', 'dun']),
+    'layouts3': dict(MaxObjs=1, Shapes=LAYOUTS, Leaves=['i', 'z'], KidsRoot=3, KidsRest=0, Homes=['own', 'inh'], Schemes=['ord', 'dun', 'ext']),
+    'layouts2': dict(MaxObjs=2, Shapes=LAYOUTS + ['list'], Leaves=['i'], KidsRoot=2, KidsRest=1),
     'triL':    dict(MaxObjs=3, Shapes=['list', 'GL', 'tuple', 'PA'], Leaves=['i'], KidsRoot=2, KidsRest=1),
     'triLh':   dict(MaxObjs=3, Shapes=['list', 'GL', 'GC'], Leaves=['i'], KidsRoot=2, KidsRest=1, Homes=['inh']),
-    'leaves':  dict(MaxObjs=1, Shapes=ALL, Leaves=['i', 'i0', 'z', 'c', 'n', 'm', 'e'], KidsRoot=2, KidsRest=0),
+    'leaves':  dict(MaxObjs=1, Shapes=OLD, Leaves=['i', 'i0', 'z', 'c', 'n', 'm', 'e'], KidsRoot=2, KidsRest=0),
     'chainA5': dict(MaxObjs=3, Shapes=['list', 'P', 'GS', 'R2', 'GV'], Leaves=['i'], KidsRoot=1, KidsRest=1),
     'chainB5': dict(MaxObjs=3, Shapes=['dict', 'SD', 'GT', 'NA', 'RL'], Leaves=['i'], KidsRoot=1, KidsRest=1),
     'chainA':  dict(MaxObjs=3, Shapes=A7, Leaves=['i'], KidsRoot=1, KidsRest=1),
     'chainB':  dict(MaxObjs=3, Shapes=B7, Leaves=['i'], KidsRoot=1, KidsRest=1),
     # thorough
-    'pairs22': dict(MaxObjs=2, Shapes=ALL, Leaves=['i'], KidsRoot=2, KidsRest=2),
-    'pairs_l': dict(MaxObjs=2, Shapes=ALL, Leaves=['i0', 'z'], KidsRoot=2, KidsRest=1),
+    'pairs22': dict(MaxObjs=2, Shapes=OLD, Leaves=['i'], KidsRoot=2, KidsRest=2),
+    'pairs_l': dict(MaxObjs=2, Shapes=OLD, Leaves=['i0', 'z'], KidsRoot=2, KidsRest=1),
     'leaves2': dict(MaxObjs=1, Shapes=ALL, Leaves=ALLLEAVES, KidsRoot=2, KidsRest=0),
     'chainC':  dict(MaxObjs=3, Shapes=C7, Leaves=['i'], KidsRoot=1, KidsRest=1),
     'triL2':   dict(MaxObjs=3, Shapes=['list', 'GL', 'dict', 'GS'], Leaves=['i'], KidsRoot=2, KidsRest=2),
@@ -64,11 +72,15 @@ CONFIGS = {
     'quad_a':  dict(MaxObjs=4, Shapes=['list', 'P', 'GS', 'R2', 'tuple'], Leaves=['i'], KidsRoot=1, KidsRest=1),
     'quad_b':  dict(MaxObjs=4, Shapes=['dict', 'GV', 'ML', 'SD', 'NA'], Leaves=['i'], KidsRoot=1, KidsRest=1),
 }
-TIERS = {'quick': ['pairsAB', 'pairsC', 'names', 'homes1', 'triLh', 'triL', 'leaves', 'chainA5', 'chainB5'],
-         'thorough': ['pairs22', 'pairs_l', 'leaves2', 'names1', 'names2', 'homes', 'homes1', 'triLh', 'triL', 'triL2', 'chainA', 'chainB', 'chainC', 'tri_a', 'tri_b', 'tri_c', 'tri_d', 'tri_e',
+TIERS = {'quick': ['pairsAB', 'pairsC', 'names', 'homes1', 'layouts', 'triLh', 'triL', 'leaves', 'chainA5', 'chainB5'],
+         'thorough': ['pairs22', 'pairs_l', 'leaves2', 'layouts3', 'layouts2', 'names1', 'names2', 'homes', 'homes1', 'triLh', 'triL', 'triL2', 'chainA', 'chainB', 'chainC', 'tri_a', 'tri_b', 'tri_c', 'tri_d', 'tri_e',
                       'tri_a2', 'tri_b2', 'quad_a', 'quad_b']}
 RANDOM = {'quick': 300, 'thorough': 12000}
-WORKERS = int(os.environ.get('VERIF_TLC_WORKERS', '16'))
+# VERIF_TRACE_PAR is the machine-wide cap on parallelism (harness/trace.py): it bounds the TLC workers of one run, the
+# number of TLC runs at a time and the size of the worker pools here.  No effect on results.
+PAR = max(1, min(16, int(os.environ.get('VERIF_TRACE_PAR', '16') or 16)))
+WORKERS = max(1, min(PAR, int(os.environ.get('VERIF_TLC_WORKERS', '16'))))
+JVMS = max(1, PAR // 2)          # TLC runs at a time (each gets WORKERS // min(JVMS, 4) workers, at least 2)
 
 
 def tla(v):
@@ -217,7 +229,7 @@ def judge(records, tag, fixes, batch=4000):
     d = ensure_dir(os.path.join(BUILD, 'traces'))
     keep = ('g', 'ref', 'rroot', 'unsafe', 'tags', 'full')
     starts = list(range(0, len(records), batch))
-    par = max(1, min(4, len(starts)))
+    par = max(1, min(4, JVMS, len(starts)))
 
     def one(b0):
         part = [{k: r[k] for k in keep} for r in records[b0:b0 + batch]]
@@ -276,7 +288,8 @@ def work_random(args):
 # ------------------------------------------------------------------------------------------------ random graphs
 ARGSHAPES = {'tuple', 'NA', 'NT', 'R2', 'R3', 'CR'}
 TWOSEC = {'NA', 'R3', 'RL', 'ML', 'MD', 'MS', 'MO'}
-AONLY = {'P', 'PA', 'S', 'SD', 'GS'}
+AONLY = {'P', 'PA', 'S', 'SD', 'GS', 'PT', 'ST'}
+BOTHSEC = {'DS', 'SB', 'DST'}
 
 
 def in_domain(g):
@@ -328,7 +341,7 @@ def random_graph(rnd):
         while len(g) < hi:
             s = forced.get(len(g) + 1) or rnd.choice(shapes)
             last = len(g) + 1 == hi and hi < target          # the graph would end here: make it grow
-            if last and s in ('set', 'MS', 'GL') and len(g) + 1 not in forced:
+            if last and s in ('set', 'MS', 'GL', 'E0', 'E0T') and len(g) + 1 not in forced:
                 s = rnd.choice(['list', 'dict', 'P', 'GS', 'ML', 'R2', 'tuple'])
             force = [last]
 
@@ -350,7 +363,9 @@ def random_graph(rnd):
                 a = [val() for _ in range(rnd.randrange(0, 3))] if s == 'MS' else []
             elif s in AONLY:
                 p, a = [], [val() for _ in range(rnd.randrange(1 if last else 0, 4))]
-            elif s in TWOSEC:
+            elif s in ('E0', 'E0T'):
+                p, a = [], []
+            elif s in TWOSEC or s in BOTHSEC:
                 p, a = [val() for _ in range(rnd.randrange(1 if last else 0, 4))], [val() for _ in range(rnd.randrange(0, 3))]
             elif s == 'GV':
                 p, a = [val()], []
@@ -470,7 +485,7 @@ def main(tier, replay=None):
         return v.finish()
     per_config, allrecs = {}, []
     from concurrent.futures import ThreadPoolExecutor
-    par = 1 if tier == 'thorough' else min(8, len(TIERS[tier]))        # the quick configurations are small: run TLC on all at once
+    par = 1 if tier == 'thorough' else min(JVMS, len(TIERS[tier]))     # the quick configurations are small: run TLC on several at once
 
     def mc(name):
         return tlc.run('Reduce', cfg='MC_Reduce.cfg', dump=True, tag='C17_' + name, timeout=3000, coverage=False,
@@ -488,7 +503,7 @@ def main(tier, replay=None):
         states += r.distinct
         trans += r.generated
         t1 = time.time()
-        out = mbt.pmap(work, r.dump, {'seed': SEED})
+        out = mbt.pmap(work, r.dump, {'seed': SEED}, procs=PAR)
         t2 = time.time()
         if sum(o['n'] for o in out) != r.distinct:
             raise SystemExit('machinery failure: replayed %d states, TLC found %d' % (sum(o['n'] for o in out), r.distinct))
@@ -507,7 +522,7 @@ def main(tier, replay=None):
     import multiprocessing as mp
     n = RANDOM[tier]
     step = max(1, n // 64)
-    with mp.Pool(16) as pool:
+    with mp.Pool(PAR) as pool:
         parts = pool.map(work_random, [(a, min(n, a + step), SEED) for a in range(0, n, step)], chunksize=1)
     recs = [x for p in parts for x in p]
     for x in recs:
